@@ -174,7 +174,7 @@ ProposalViewUpdate(x, v) ==
        LET x1 == CancelTimer(x)
            ok == OKPHs(v.phs)
        IN IF MaxPow(v.pv) >= maj
-            THEN [CMRequest([x1 EXCEPT !.s.S = "AwaitingPrecommits"], "Choose", ok, TRUE) EXCEPT !.s.considered = {}, !.s.pcDue = TRUE]
+            THEN [CMRequest([x1 EXCEPT !.s.S = "AwaitingPrecommits"], "Choose", ok, TRUE) EXCEPT !.s.considered = {}, !.s.pcDue = Participating]
             ELSE LET x2 == StartTimer([x1 EXCEPT !.s.S = "PrevoteDelay"], "PrevoteDelay")
                  IN IF ok # {} THEN CMRequest([x2 EXCEPT !.s.considered = @ \cup ok], "Consider", ok, TRUE) ELSE x2
   ELSE IF Cardinality(v.phs) > Cardinality(x.s.vrv.phs) /\ Cardinality(OKPHs(v.phs)) > Cardinality(OKPHs(x.s.vrv.phs))
